@@ -297,8 +297,8 @@ class S:
     def lift(o):
         if isinstance(o, S):
             return o
-        if isinstance(o, Dual):
-            raise NotEncodable("Dual met S.lift")
+        if isinstance(o, (Dual, Env)):
+            raise NotEncodable("Dual/Env met S.lift")
         if isinstance(o, np.ndarray) and o.ndim == 0:
             o = o.item()
             if isinstance(o, S):
@@ -311,7 +311,7 @@ class S:
         if isinstance(o, np.ndarray):
             f = np.frompyfunc(lambda e: self._bin(e, op, swap), 1, 1)
             return f(o)
-        if isinstance(o, Dual):
+        if isinstance(o, (Dual, Env)):
             return NotImplemented
         if not isinstance(o, S):
             if not _is_num(o):
@@ -386,6 +386,8 @@ class S:
             return f(o)
         if isinstance(o, Dual):
             o = o.v
+        if isinstance(o, Env):
+            o = o.v
         if not isinstance(o, S):
             if o is None or isinstance(o, (str, tuple, list, dict)):
                 return NotImplemented
@@ -447,6 +449,9 @@ class S:
 
     def sqrt(s):
         return sym_sqrt(s)
+
+    def li2(s):
+        return sym_li2(s)
 
     def exp(s):
         raise NotEncodable("exp of a symbolic value")
@@ -624,6 +629,9 @@ def sym_log(s):
     c.oblige("log", s.t > 0)
     parts = _split_factors(s.t)
     if len(parts) == 1:
+        # 1-(1-A) and the like: let z3 normalise once, then look for a product again
+        parts = _split_factors(z3.simplify(s.t))
+    if len(parts) == 1:
         return c.atom("log", s)
     # evaluate every factor's witness; split only if all non-constant factors are positive there
     facs = []
@@ -707,24 +715,32 @@ def sym_li2(s):
 # ---------------------------------------------------------------------------
 
 
+def _scalar_type(*objs):
+    for o in objs:
+        if isinstance(o, Env):
+            return Env
+    return S
+
+
 class Dual:
-    """v + d*eps with S components; every elementary rule is the exact derivative."""
+    """v + d*eps; components are S (exact) or Env (exact value + triangle-inequality magnitude)."""
 
     __array_priority__ = 1001
     __slots__ = ("v", "d")
 
     def __init__(self, v, d):
-        self.v, self.d = S.lift(v), S.lift(d)
-
-    @staticmethod
-    def lift(o):
-        if isinstance(o, Dual):
-            return o
-        return Dual(S.lift(o), S.lift(0))
+        T = _scalar_type(v, d)
+        self.v, self.d = T.lift(v), T.lift(d)
 
     @staticmethod
     def _ok(o):
-        return isinstance(o, (Dual, S)) or _is_num(o)
+        return isinstance(o, (Dual, S, Env)) or _is_num(o)
+
+    def _lift(self, o):
+        if isinstance(o, Dual):
+            return o
+        T = type(self.v)
+        return Dual(T.lift(o), T.lift(0))
 
     def _map(self, o, fn):
         f = np.frompyfunc(lambda e: fn(self, e), 1, 1)
@@ -735,7 +751,7 @@ class Dual:
             return s._map(o, lambda a, b: a + b)
         if not Dual._ok(o):
             return NotImplemented
-        o = Dual.lift(o)
+        o = s._lift(o)
         return Dual(s.v + o.v, s.d + o.d)
 
     __radd__ = __add__
@@ -745,7 +761,7 @@ class Dual:
             return s._map(o, lambda a, b: a - b)
         if not Dual._ok(o):
             return NotImplemented
-        o = Dual.lift(o)
+        o = s._lift(o)
         return Dual(s.v - o.v, s.d - o.d)
 
     def __rsub__(s, o):
@@ -753,7 +769,7 @@ class Dual:
             return s._map(o, lambda a, b: b - a)
         if not Dual._ok(o):
             return NotImplemented
-        o = Dual.lift(o)
+        o = s._lift(o)
         return Dual(o.v - s.v, o.d - s.d)
 
     def __mul__(s, o):
@@ -761,7 +777,7 @@ class Dual:
             return s._map(o, lambda a, b: a * b)
         if not Dual._ok(o):
             return NotImplemented
-        o = Dual.lift(o)
+        o = s._lift(o)
         return Dual(s.v * o.v, s.d * o.v + s.v * o.d)
 
     __rmul__ = __mul__
@@ -771,7 +787,7 @@ class Dual:
             return s._map(o, lambda a, b: a / b)
         if not Dual._ok(o):
             return NotImplemented
-        o = Dual.lift(o)
+        o = s._lift(o)
         return Dual(s.v / o.v, (s.d * o.v - s.v * o.d) / (o.v * o.v))
 
     def __rtruediv__(s, o):
@@ -779,7 +795,7 @@ class Dual:
             return s._map(o, lambda a, b: b / a)
         if not Dual._ok(o):
             return NotImplemented
-        return Dual.lift(o) / s
+        return s._lift(o) / s
 
     def __neg__(s):
         return Dual(-s.v, -s.d)
@@ -788,8 +804,11 @@ class Dual:
         return s
 
     def __pow__(s, n):
-        if isinstance(n, (S, Dual)):
-            n = n.v if isinstance(n, Dual) else n
+        if isinstance(n, Dual):
+            n = n.v
+        if isinstance(n, Env):
+            n = n.v
+        if isinstance(n, S):
             if n.const is None:
                 raise NotEncodable("symbolic exponent")
             n = n.const
@@ -799,21 +818,21 @@ class Dual:
         if nf.denominator != 1:
             raise NotEncodable(f"non-integer power {n}")
         n = int(nf)
-        r = Dual(S.lift(1), S.lift(0))
+        r = s._lift(1)
         for _ in range(abs(n)):
             r = r * s
         return r if n >= 0 else 1 / r
 
     def log(s):
-        return Dual(sym_log(s.v), s.d / s.v)
+        return Dual(s.v.log(), s.d / s.v)
 
     def sqrt(s):
-        r = sym_sqrt(s.v)
+        r = s.v.sqrt()
         return Dual(r, s.d / (2 * r))
 
     def li2(s):
         # d/du Li2(u) = -ln(1-u)/u
-        return Dual(sym_li2(s.v), -sym_log(1 - s.v) / s.v * s.d)
+        return Dual(s.v.li2(), -((1 - s.v).log()) / s.v * s.d)
 
     def _cmp(s, o, op):
         o = o.v if isinstance(o, Dual) else o
@@ -847,22 +866,168 @@ class Dual:
         return f"Dual({s.v!r},{s.d!r})"
 
 
+def abs_s(s):
+    s = S.lift(s)
+    if s.const is not None:
+        return S.lift(abs(s.const))
+    return S(z3.If(s.t >= 0, s.t, -s.t), abs(s.w))
+
+
+class Env:
+    """Exact value v together with the triangle-inequality magnitude m of the same expression
+    (every + and - adds magnitudes, * multiplies them): the 'envelope' used for tolerances."""
+
+    __array_priority__ = 1000
+    __slots__ = ("v", "m")
+
+    def __init__(self, v, m):
+        self.v, self.m = v, m
+
+    @staticmethod
+    def lift(o):
+        if isinstance(o, Env):
+            return o
+        s = S.lift(o)
+        return Env(s, abs_s(s))
+
+    @staticmethod
+    def _ok(o):
+        return isinstance(o, (Env, S)) or _is_num(o)
+
+    def _map(self, o, fn):
+        return np.frompyfunc(lambda e: fn(self, e), 1, 1)(o)
+
+    def __add__(s, o):
+        if isinstance(o, np.ndarray):
+            return s._map(o, lambda a, b: a + b)
+        if not Env._ok(o):
+            return NotImplemented
+        o = Env.lift(o)
+        return Env(s.v + o.v, s.m + o.m)
+
+    __radd__ = __add__
+
+    def __sub__(s, o):
+        if isinstance(o, np.ndarray):
+            return s._map(o, lambda a, b: a - b)
+        if not Env._ok(o):
+            return NotImplemented
+        o = Env.lift(o)
+        return Env(s.v - o.v, s.m + o.m)
+
+    def __rsub__(s, o):
+        if isinstance(o, np.ndarray):
+            return s._map(o, lambda a, b: b - a)
+        if not Env._ok(o):
+            return NotImplemented
+        o = Env.lift(o)
+        return Env(o.v - s.v, s.m + o.m)
+
+    def __mul__(s, o):
+        if isinstance(o, np.ndarray):
+            return s._map(o, lambda a, b: a * b)
+        if not Env._ok(o):
+            return NotImplemented
+        o = Env.lift(o)
+        return Env(s.v * o.v, s.m * o.m)
+
+    __rmul__ = __mul__
+
+    def __truediv__(s, o):
+        if isinstance(o, np.ndarray):
+            return s._map(o, lambda a, b: a / b)
+        if not Env._ok(o):
+            return NotImplemented
+        o = Env.lift(o)
+        return Env(s.v / o.v, s.m / abs_s(o.v))
+
+    def __rtruediv__(s, o):
+        if isinstance(o, np.ndarray):
+            return s._map(o, lambda a, b: b / a)
+        if not Env._ok(o):
+            return NotImplemented
+        return Env.lift(o) / s
+
+    def __neg__(s):
+        return Env(-s.v, s.m)
+
+    def __pos__(s):
+        return s
+
+    def __pow__(s, n):
+        if isinstance(n, (S, Env)):
+            n = n.v if isinstance(n, Env) else n
+            if n.const is None:
+                raise NotEncodable("symbolic exponent")
+            n = n.const
+        nf = tofrac(n)
+        if nf.denominator == 2:
+            return s.sqrt() ** int(nf.numerator)
+        if nf.denominator != 1:
+            raise NotEncodable(f"non-integer power {n}")
+        n = int(nf)
+        r = Env.lift(1)
+        for _ in range(abs(n)):
+            r = r * s
+        return r if n >= 0 else 1 / r
+
+    def log(s):
+        return Env.lift(sym_log(s.v))
+
+    def sqrt(s):
+        return Env.lift(sym_sqrt(s.v))
+
+    def li2(s):
+        return Env.lift(sym_li2(s.v))
+
+    def _cmp(s, o, op):
+        o = o.v if isinstance(o, (Env,)) else o
+        return s.v._cmp(o, op)
+
+    def __lt__(s, o):
+        return s._cmp(o, "<")
+
+    def __le__(s, o):
+        return s._cmp(o, "<=")
+
+    def __gt__(s, o):
+        return s._cmp(o, ">")
+
+    def __ge__(s, o):
+        return s._cmp(o, ">=")
+
+    def __eq__(s, o):
+        return s._cmp(o, "==")
+
+    def __ne__(s, o):
+        return s._cmp(o, "!=")
+
+    def __hash__(s):
+        return 3
+
+    def __float__(s):
+        raise Concretised("envelope value reached float()")
+
+    def __repr__(s):
+        return f"Env({s.v!r},|{s.m!r}|)"
+
+
 def li2(x):
     """Stub for special.li2 / Li2."""
-    if isinstance(x, Dual):
+    if isinstance(x, (Dual, Env, S)):
         return x.li2()
     return sym_li2(x)
 
 
 def spence(z):
     """Stub for scipy.special.spence: spence(z) = Li2(1-z)."""
-    if isinstance(z, Dual):
+    if isinstance(z, (Dual, Env, S)):
         return (1 - z).li2()
     return sym_li2(1 - S.lift(z))
 
 
 def is_sym(o):
-    return isinstance(o, (S, Dual, SBool))
+    return isinstance(o, (S, Dual, SBool, Env))
 
 
 def eval_term(t, ctx, atom_values=None):
